@@ -27,8 +27,11 @@ print("#3 C20 canonicalMacName DHE_DSS_AES256_GCM / DHE_RSA_AES256_GCM:",
           CipherSuite.TLS_DHE_RSA_WITH_AES_256_GCM_SHA384))
 
 # 5  C15: trailing bytes accepted inside an extension
-e = SRPExtension().parse(Parser(bytearray(b'\x03abcXYZ')))
-print("#5 C15 SRP extension with 3 trailing bytes parses to:", e.identity)
+try:
+    e = SRPExtension().parse(Parser(bytearray(b'\x03abcXYZ')))
+    print("#5 C15 SRP extension with 3 trailing bytes parses to:", e.identity)
+except BaseException as exc:   # after fix bf78fb0
+    print("#5 C15 SRP extension with 3 trailing bytes raises:", type(exc).__name__)
 
 # 6  C08: assert on a parsed byte
 try:
